@@ -19,7 +19,8 @@ const (
 type edit struct {
 	class string // bit | key | tag | swap | drop | dup | extend | blank | rewrap | splice
 	desc  string
-	out   []byte
+	// gen produces the edited bytes on a walker private to the caller (a fresh newWalker over the same bytes)
+	gen func(w *walker) []byte
 }
 
 // indexAlphabet: positions explored inside homogeneous arrays longer than 8 (DESIGN 3.4) when restricted.
@@ -85,16 +86,19 @@ func bitPositions(nbits int, mode bitMode, leafLen int) []int {
 func enumerateEdits(b []byte, mode bitMode, restrict bool) []edit {
 	w := newWalker(b)
 	var out []edit
-	add := func(class, desc string, enc []byte) {
-		out = append(out, edit{class, desc, enc})
+	add := func(class, desc string, gen func(w *walker) []byte) {
+		out = append(out, edit{class, desc, gen})
 	}
 	// structural edits work on a clone addressed by walk index
-	onClone := func(idx int, f func(cl *cbor.Node, r cbor.Ref)) []byte {
-		cl := w.root.Clone()
-		refs := cbor.Walk(cl)
-		f(cl, refs[idx])
-		return cbor.Encode(cl)
+	onClone := func(idx int, f func(cl *cbor.Node, r cbor.Ref)) func(w *walker) []byte {
+		return func(w *walker) []byte {
+			cl := w.root.Clone()
+			refs := cbor.Walk(cl)
+			f(cl, refs[idx])
+			return cbor.Encode(cl)
+		}
 	}
+	fixed := func(enc []byte) func(*walker) []byte { return func(*walker) []byte { return enc } }
 	ok := func(r *cbor.Ref) bool { return !restrict || w.allowed(r) }
 
 	byKind := map[string][]int{}
@@ -110,26 +114,33 @@ func enumerateEdits(b []byte, mode bitMode, restrict bool) []edit {
 			switch n.Kind {
 			case cbor.Bytes, cbor.Text:
 				for _, bit := range bitPositions(8*len(n.Data), mode, len(n.Data)) {
-					n.Data[bit/8] ^= 0x80 >> (bit % 8)
-					add("bit", fmt.Sprintf("%s bit %d/%d", r.Path, bit, 8*len(n.Data)), cbor.Encode(w.root))
-					n.Data[bit/8] ^= 0x80 >> (bit % 8)
+					add("bit", fmt.Sprintf("%s bit %d/%d", r.Path, bit, 8*len(n.Data)), func(w *walker) []byte {
+						d := w.refs[i].Node.Data
+						d[bit/8] ^= 0x80 >> (bit % 8)
+						enc := cbor.Encode(w.root)
+						d[bit/8] ^= 0x80 >> (bit % 8)
+						return enc
+					})
 				}
 			case cbor.Uint, cbor.Nint:
 				for k := 0; k < 8; k++ {
-					n.Arg ^= 1 << k
-					add("bit", fmt.Sprintf("%s int bit %d", r.Path, k), cbor.Encode(w.root))
-					n.Arg ^= 1 << k
+					add("bit", fmt.Sprintf("%s int bit %d", r.Path, k), func(w *walker) []byte {
+						nn := w.refs[i].Node
+						nn.Arg ^= 1 << k
+						enc := cbor.Encode(w.root)
+						nn.Arg ^= 1 << k
+						return enc
+					})
 				}
 			default: // simple values: false/true/null
 				if n.Info < 24 {
-					old := *n
 					for _, v := range []byte{20, 21, 22} {
-						if v != old.Info {
-							n.Info, n.Arg = v, uint64(v)
-							add("bit", fmt.Sprintf("%s simple:=%d", r.Path, v), cbor.Encode(w.root))
+						if v != n.Info {
+							add("bit", fmt.Sprintf("%s simple:=%d", r.Path, v), onClone(i, func(_ *cbor.Node, c cbor.Ref) {
+								c.Node.Info, c.Node.Arg = v, uint64(v)
+							}))
 						}
 					}
-					*n = old
 				}
 			}
 			if k := r.KindID; byKind[k] == nil {
@@ -241,21 +252,23 @@ func enumerateEdits(b []byte, mode bitMode, restrict bool) []edit {
 		}
 		for _, p := range pairs {
 			a, c := w.refs[p[0]], w.refs[p[1]]
-			cl := w.root.Clone()
-			refs := cbor.Walk(cl)
-			*refs[p[0]].Node, *refs[p[1]].Node = *refs[p[1]].Node, *refs[p[0]].Node
-			add("swap", fmt.Sprintf("leaves %s <-> %s swapped", a.Path, c.Path), cbor.Encode(cl))
+			add("swap", fmt.Sprintf("leaves %s <-> %s swapped", a.Path, c.Path), func(w *walker) []byte {
+				cl := w.root.Clone()
+				refs := cbor.Walk(cl)
+				*refs[p[0]].Node, *refs[p[1]].Node = *refs[p[1]].Node, *refs[p[0]].Node
+				return cbor.Encode(cl)
+			})
 		}
 	}
 	// --- whole-value re-wraps and length edits
-	add("rewrap", "whole value wrapped in a 1-element array", append([]byte{0x81}, b...))
-	add("rewrap", "whole value wrapped in tag 55799", append([]byte{0xd9, 0xd9, 0xf7}, b...))
-	add("rewrap", "whole value wrapped in a byte string", cbor.Encode(&cbor.Node{Kind: cbor.Bytes, Data: b}))
+	add("rewrap", "whole value wrapped in a 1-element array", fixed(append([]byte{0x81}, b...)))
+	add("rewrap", "whole value wrapped in tag 55799", fixed(append([]byte{0xd9, 0xd9, 0xf7}, b...)))
+	add("rewrap", "whole value wrapped in a byte string", fixed(cbor.Encode(&cbor.Node{Kind: cbor.Bytes, Data: b})))
 	if b[0]>>5 == 5 && b[0]&0x1f < 24 {
-		add("rewrap", "top-level map head re-encoded with a 1-byte length", append([]byte{0xb8, b[0] & 0x1f}, b[1:]...))
+		add("rewrap", "top-level map head re-encoded with a 1-byte length", fixed(append([]byte{0xb8, b[0] & 0x1f}, b[1:]...)))
 	}
-	add("extend", "one trailing zero byte appended", append(append([]byte{}, b...), 0))
-	add("drop", "last byte removed", append([]byte{}, b[:len(b)-1]...))
+	add("extend", "one trailing zero byte appended", fixed(append(append([]byte{}, b...), 0)))
+	add("drop", "last byte removed", fixed(append([]byte{}, b[:len(b)-1]...)))
 	return out
 }
 
@@ -280,10 +293,14 @@ func spliceEdits(b, donor []byte, restrict bool) []edit {
 		if !ok || dn.Kind != r.Node.Kind {
 			continue
 		}
-		old := *r.Node
-		*r.Node = *dn
-		out = append(out, edit{"splice", r.Path + " := same leaf of another valid proof", cbor.Encode(w.root)})
-		*r.Node = old
+		out = append(out, edit{"splice", r.Path + " := same leaf of another valid proof", func(w *walker) []byte {
+			n := w.refs[i].Node
+			old := *n
+			*n = *dn
+			enc := cbor.Encode(w.root)
+			*n = old
+			return enc
+		}})
 	}
 	return out
 }
